@@ -26,7 +26,7 @@ try:
         bs = os.path.join(d, "build.sh")
         rc, out = sh("cd %s && sh %s %s 2>&1" % (d, bs, wt))
         exe = None
-        for cand in ("demo", "demo_A", "demo_B"):
+        for cand in ("demo", "demo_A", "demo_B", "demoA", "demoB"):
             if os.path.exists(os.path.join(d, cand)): exe = os.path.join(d, cand)
         if rc != 0 or not exe: return None, "build failed: " + out[-500:]
         rc, out = sh(exe, cwd=d, timeout=600)
